@@ -27,7 +27,13 @@ Fns == {"tars_ping", "ok", "note", "fail", "slow", "nosuch"}
 \* request q: [id (4 bytes), ver, pt, fn, tmo, cls, code (4 bytes), msg (bytes)]
 \*   tmo: "zero" (no timeout) | "ample" | "elapsed" (the request's own timeout ran out before Invoke looked at it)
 \*   cls (fn = "slow" only): "short" | "over"/"block" (far longer than any handle timeout) | "near" (about the handle timeout)
-\* configuration c: [pool (0 = goroutine per request), ht (handle timeout configured?), proto]
+\* configuration c: [pool (0 = goroutine per request), ht (handle timeout configured?), proto,
+\*                   filt (server filters registered in the process), wctx (servant registered with context?)]
+\*   filt: "none" | "legacy" (tars.RegisterServerFilter) | "prepost" (pre and post filters) | "mw" (filter middlewares) | "all"
+\*   The filters are observers that pass the call on unchanged (what a metrics / tracing plug-in does).  The statement
+\*   does not mention filters: "every ... configuration" includes the ones with such filters registered, and the relation
+\*   below deliberately does not look at c.filt or c.wctx - whatever is registered, the same replies are owed.
+FilterKinds == {"none", "legacy", "prepost", "mw", "all"}
 Elapsed(q) == q.tmo = "elapsed"
 OverLong(q, c) == c.ht /\ q.fn = "slow" /\ q.cls \in {"over", "block"} /\ ~Elapsed(q)
 Racy(q, c) == c.ht /\ q.fn = "slow" /\ q.cls = "near" /\ ~Elapsed(q)
@@ -81,9 +87,12 @@ CONSTANTS NReq,                   \* number of requests
           TimerAfterDecode,       \* TRUE: the handle timeout is longer than it takes the invoker to decode the request
           KF_BlankTimeoutReply,   \* F8: InvokeTimeout answers with version 0 / packet type 0
           KF_PacketTypeSetLate,   \* F9: the packet type reaches the Current only when Invoke is about to return
-          KF_TupDropsResult       \* F10: a TUP reply is re-encoded as a RequestPacket, losing code and description
+          KF_TupDropsResult,      \* F10: a TUP reply is re-encoded as a RequestPacket, losing code and description
+          Filts,                  \* subset of FilterKinds: filter registrations to explore
+          VG_PingThroughFilter    \* vacuity guard (not a finding of the tree): with a legacy filter registered the ping short cut is
+                                  \* skipped and the ping goes through the filter to the dispatcher, which does not know the function
 
-VARIABLES cfg,        \* [pool, ht]
+VARIABLES cfg,        \* [pool, ht, filt]
           reqs,       \* 1..NReq -> request (shape + id + conn)
           unread,     \* conn -> sequence of request numbers the server has not read yet (pipelined, in order)
           queue,      \* the pool's job queue
@@ -104,10 +113,11 @@ vars == <<cfg, reqs, unread, queue, worker, hpc, ipc, fired, cancelled, rspLocal
 R == 1..NReq
 Nil == [nil |-> TRUE]
 IdOf(r) == <<0, 0, 0, r>>
-C == [pool |-> cfg.pool, ht |-> cfg.ht, proto |-> "tcp"]
+C == [pool |-> cfg.pool, ht |-> cfg.ht, proto |-> "tcp", filt |-> cfg.filt, wctx |-> TRUE]
+ASSUME Filts \subseteq FilterKinds
 
 Init ==
-  /\ cfg \in [pool : Pools, ht : HTs]
+  /\ cfg \in [pool : Pools, ht : HTs, filt : Filts]
   /\ \E sh \in [R -> Shapes], co \in [R -> 1..NConn] :
        /\ co[1] = 1                                            \* connections are interchangeable
        /\ reqs = [r \in R |-> [id |-> IdOf(r), conn |-> co[r], ver |-> sh[r].ver, pt |-> sh[r].pt, fn |-> sh[r].fn,
@@ -165,21 +175,22 @@ Check(r) ==
   /\ ipc[r] = "check"
   /\ IF Elapsed(reqs[r])
        THEN rspLocal' = [rspLocal EXCEPT ![r] = Built(r, QueueTimeout4, <<113>>)] /\ ipc' = [ipc EXCEPT ![r] = "setpt"]
-     ELSE IF reqs[r].fn = "tars_ping"
+     ELSE IF reqs[r].fn = "tars_ping" /\ ~(VG_PingThroughFilter /\ cfg.filt \in {"legacy", "all"})
        THEN rspLocal' = [rspLocal EXCEPT ![r] = Built(r, Zero4, <<>>)] /\ ipc' = [ipc EXCEPT ![r] = "setpt"]
      ELSE rspLocal' = rspLocal /\ ipc' = [ipc EXCEPT ![r] = "exec"]
   /\ UNCHANGED <<cfg, reqs, unread, queue, worker, hpc, fired, cancelled, rspVar, out, ctxPt, impl, wire, answered>>
-\* dispatch: unknown function -> error without entering the implementation; an over-long implementation returns
+\* the registered filters (observers, they change nothing) and the dispatcher, as one step;
+\* dispatch: unknown function (a ping that got this far included) -> error without entering the implementation; an over-long implementation returns
 \* only after the handler has given up on it (that is what over-long means: it outlasts the timer and the handler's
 \* reaction to it), a racy one whenever it likes
 Exec(r) ==
   /\ ipc[r] = "exec"
   /\ OverLong(reqs[r], C) => hpc[r] \in {"readpt", "write", "done"}
   /\ LET q == reqs[r] IN
-     /\ impl' = IF q.fn = "nosuch" THEN impl ELSE [impl EXCEPT ![r] = @ + 1]
+     /\ impl' = IF q.fn \in {"nosuch", "tars_ping"} THEN impl ELSE [impl EXCEPT ![r] = @ + 1]
      /\ rspLocal' = [rspLocal EXCEPT ![r] =
           CASE q.fn = "fail" -> Built(r, IF q.code = Zero4 THEN One4 ELSE q.code, q.msg)
-            [] q.fn = "nosuch" -> Built(r, One4, <<102>>)
+            [] q.fn \in {"nosuch", "tars_ping"} -> Built(r, One4, <<102>>)
             [] OTHER -> Built(r, Zero4, <<>>)]
   /\ ipc' = [ipc EXCEPT ![r] = "setpt"]
   /\ UNCHANGED <<cfg, reqs, unread, queue, worker, hpc, fired, cancelled, rspVar, out, ctxPt, wire, answered>>
